@@ -1203,7 +1203,7 @@ Section Refine.
         * split; [rewrite Fcy; unfold s1; simpl; exact Hcy|]. rewrite Fm. unfold s1 at 1. simpl d_mode. rewrite Hm.
           assert (Ecy : cyc s2 = cyc s) by (unfold cyc; rewrite Fcy; reflexivity).
           rewrite Ecy, Fv, Fnv. split; [exact Hval|]. split; [exact Hnd1|]. split; [exact Hincl1|].
-          split; [exact Hvals1|]. right. split; auto.
+          split; [exact Hvals1|]. right. split; [|split; [exact Hne | symmetry; exact Dr]].
           unfold s1; simpl. rewrite app_length. simpl. unfold M_Dba.nnb in *.
           rewrite <- (map_length fst) in Hopen. pose proof (incl_nodup_len _ _ Hnd1 Hincl1) as L.
           rewrite K1, app_length in L. simpl in L. rewrite map_length in *. lia.
